@@ -221,6 +221,34 @@ func init() {
 	addMisuse("missing", "Map.RemoveBatch(missing, with callback)", func(d *Drv, op *Op, h, _ ecs.Entity) {
 		d.Maps[op.Rem[0]].RemoveBatch(typed.NewFilter0(d.W, false).Batch(nil), func(ecs.Entity) {})
 	})
+	// ... and with a registered filter (the batch's table list comes from the cache then); the filter is unregistered again
+	// whether the call panics or not
+	regBatch := func(d *Drv, with []int, run func(b ecs.Batch)) {
+		f := typed.NewFilter0(d.W, false)
+		if len(with) > 0 {
+			f.With(comps(with))
+		}
+		f.Register()
+		defer f.Unregister()
+		run(f.Batch(nil))
+	}
+	addMisuse("dup", "Map.AddBatch(dup, registered filter)", func(d *Drv, op *Op, h, _ ecs.Entity) {
+		var tg []ecs.Entity
+		if u.Types[op.Add[0]].IsRel {
+			tg = []ecs.Entity{{}}
+		}
+		regBatch(d, op.Add[:1], func(b ecs.Batch) { d.Maps[op.Add[0]].AddBatch(b, 5, tg) })
+	})
+	addMisuse("dup", "Map.AddBatchFn(dup, all entities, registered filter)", func(d *Drv, op *Op, h, _ ecs.Entity) {
+		var tg []ecs.Entity
+		if u.Types[op.Add[0]].IsRel {
+			tg = []ecs.Entity{{}}
+		}
+		regBatch(d, nil, func(b ecs.Batch) { d.Maps[op.Add[0]].AddBatchFn(b, func(ecs.Entity, unsafe.Pointer) {}, tg) })
+	})
+	addMisuse("missing", "Map.RemoveBatch(missing, registered filter)", func(d *Drv, op *Op, h, _ ecs.Entity) {
+		regBatch(d, nil, func(b ecs.Batch) { d.Maps[op.Rem[0]].RemoveBatch(b, nil) })
+	})
 	addMisuse("empty", "Unsafe.Add()", func(d *Drv, op *Op, h, _ ecs.Entity) { d.U.Add(h) })
 	addMisuse("empty", "Unsafe.Remove()", func(d *Drv, op *Op, h, _ ecs.Entity) { d.U.Remove(h) })
 	addMisuse("empty", "Unsafe.Exchange(nil,nil)", func(d *Drv, op *Op, h, _ ecs.Entity) { d.U.Exchange(h, nil, nil) })
